@@ -523,7 +523,7 @@ def abstract_telstate(ts):
             a = [1, [codes(e) for e in v]]
         elif isinstance(v, dict) and any(isinstance(i, dict) and 'shape' in i for i in v.values()):
             info = v.get('flags') or v.get('correlator_data') or next(iter(v.values()))
-            a = [2, int(info['shape'][0]), [int(n) for n in info['shape'][1:]]]
+            a = [2, int(info['shape'][0]), [int(n) for n in info['shape'][1:]], int('prefix' in info)]
         else:
             a = [3]
         st.append([codes(k), int(mut), len(vals)])
@@ -580,6 +580,25 @@ def build_flag_fixture(case, seed):
         if case.get('archived_decoy') is not None:
             # the real list lives in the capture block namespace, a less specific decoy in the global one
             ts.view(cbid, exclusive=True)['sdp_archived_streams'] = [stream] + [c['name'] for c in case['candidates']]
+        # chunk infos without their own 'prefix': the chunk name is a key of its own (own_prefix / prefix_at = the
+        # namespace that holds it: 'cs', 's', the parent's 'cp' / 'p', or 'none')
+
+        def strip(key, where):
+            info = ts[key]
+            name = next(iter(info.values()))['prefix']
+            ts.delete(key)
+            ts[key] = {k: {kk: vv for kk, vv in v.items() if kk != 'prefix'} for k, v in info.items()}
+            if where is not None:
+                ts[where + 'chunk_name'] = name
+        if case.get('own_prefix', 'info') != 'info':
+            strip(ts.join(cbid, stream, 'chunk_info'), {'cs': ts.join(cbid, stream) + '_', 's': stream + '_'}.get(case['own_prefix']))
+        for c in case['candidates']:
+            at, iat = c.get('prefix_at', 'info'), c.get('info_at', 'cs')
+            if at != 'info' and iat != 'none':
+                nm, par = c['name'], c.get('inherit')
+                key = {'cs': ts.join(cbid, nm), 's': nm, 'p': par, 'cp': ts.join(cbid, par or '')}[iat] + '_chunk_info'
+                strip(key, {'cs': ts.join(cbid, nm) + '_', 's': nm + '_', 'p': (par or '') + '_',
+                            'cp': ts.join(cbid, par or '') + '_'}.get(at))
     decoy = case.get('archived_decoy')
     x = v4.build_v4(T=T, F=F, arrays={'flags': own}, flag_streams=cands, seed=seed,
                     chunks={'correlator_data': (1, F, B)}, construct=False, telstate_hook=hook,
@@ -615,7 +634,7 @@ def spec_get(ts, spaces, key):
 
 def flat_get(ts, cb, stream, key):
     """NOT the property: only the places where the attributes usually are (used to count how often placement decides)."""
-    for q in (['%s_%s_' % (cb, stream)] if key == 'chunk_info' else [stream + '_']):
+    for q in (['%s_%s_' % (cb, stream)] if key in ('chunk_info', 'chunk_name') else [stream + '_']):
         if q + key in ts:
             return ts[q + key]
     return None
@@ -630,6 +649,8 @@ def spec_of_mode(case, mode, ts, cb='1234567890', stream='sdp_l0', flat=False):
         return dict(dumps=n_ts, ts_ok=True)          # nothing is derived from the streams
     l0 = spec_namespaces(ts, cb, stream)
     own = spec_get(ts, l0, 'chunk_info')
+    if 'prefix' not in own['flags'] and spec_get(ts, l0, 'chunk_name') is None:
+        return 'KeyError'                            # nothing says where the chunks of the stream are
     T = own['correlator_data']['shape'][0]
     rest = tuple(own['flags']['shape'][1:])
     win = None
@@ -647,16 +668,19 @@ def spec_of_mode(case, mode, ts, cb='1234567890', stream='sdp_l0', flat=False):
         info = get('chunk_info')
         if info is None:
             return 'KeyError'
+        where = info['flags'].get('prefix') or (flat_get(ts, cb, a, 'chunk_name') if flat else spec_get(ts, spaces, 'chunk_name'))
+        if where is None:
+            return 'KeyError'
         if tuple(info['flags']['shape'][1:]) != rest:
             return 'ValueError'
-        win = info
+        win = dict(info, where=where)
     wT = win['flags']['shape'][0] if win else T
     n = max(T, wT)
     exp = dict(dumps=n if n_ts is None else n_ts, ts_ok=True)
     if has_store:
         value = 0x10
-        if win is not None and 'correlator_data' not in win:
-            value = 0x10 + names.index(win['flags']['prefix'][len(cb) + 1:].replace('-', '_')) + 1
+        if win is not None and win['where'][len(cb) + 1:].replace('-', '_') != stream:
+            value = 0x10 + names.index(win['where'][len(cb) + 1:].replace('-', '_')) + 1
         exp.update(data_dumps=n, flag_value=value, clean_dumps=min(T, wT), lost_ok=True)
     return exp
 
@@ -754,7 +778,10 @@ def check_open(ctx, case, mode, x=None, st_vals=None):
                 out = dict(dumps=r[3], ts_ok=True)
                 if r[4]:
                     info = x.telstate[''.join(map(chr, st[r[4][1]][0]))]      # the chunk info the flags come from
-                    idx = None if 'correlator_data' in info else names.index(info['flags']['prefix'][len(x.cbid) + 1:])
+                    where = x.telstate[''.join(map(chr, st[r[4][2]][0]))]     # ... and what names the place of its chunks
+                    where = where if isinstance(where, str) else where['flags']['prefix']
+                    where = where[len(x.cbid) + 1:].replace('-', '_')
+                    idx = None if where == x.stream else names.index(where)
                     out.update(data_dumps=r[4][0], flag_value=0x10 if idx is None else 0x10 + idx + 1,
                                clean_dumps=min(case['T'], info['flags']['shape'][0]), lost_ok=True)
                 return out
@@ -838,6 +865,14 @@ def gen_flag_case(rng):
             c['info_at'] = rng.choice(['cs', 's', 'none'])
     if parents:
         case['parents'] = parents
+    r = rng.random()
+    if r < 0.15:
+        case['own_prefix'] = 'cs' if r < 0.10 else 's' if r < 0.14 else 'none'
+    for c in cands:
+        if c.get('info_at', 'cs') != 'none' and rng.random() < 0.3:
+            opts = ['cs', 'cs', 's'] + (['p', 'cp'] if str(c.get('inherit', '')).startswith('par') else []) \
+                + (['none'] if 'own_prefix' not in case else [])
+            c['prefix_at'] = rng.choice(opts)
     if cands and rng.random() < 0.25:
         case['archived_decoy'] = rng.choice([[], [cands[0]['name']], [c['name'] for c in reversed(cands)]])
     return case
@@ -886,6 +921,7 @@ def check_flag_streams(ctx, case=None, n_modes=None):
         # how often the namespace placement of the candidates' attributes decides the outcome
         m0 = dict(how='ctor', store='given', upgrade=True, n_ts=None)
         if case.get('archived_decoy') is not None or case.get('parents') \
+                or 'own_prefix' in case \
                 or any(set(c) - {'name', 'T', 'F', 'B', 'type', 'src'} or c['src'] is None for c in case['candidates']):
             ctx.count('flag_layout:varied')
             full, flat = spec_of_mode(case, m0, x.telstate), spec_of_mode(case, m0, x.telstate, flat=True)
@@ -1009,7 +1045,13 @@ def run(ctx):
             dict(T=3, F=4, candidates=[dict(name='fl0', T=5, F=4, type='sdp.flags', src=['sdp_l0'], inherit='par0', info_at='p')],
                  parents=[dict(name='par0', type='sdp.vis', src=['other'], cb_type='sdp.cal')]),
             dict(T=3, F=4, candidates=[dict(name='fl0', T=4, F=4, type='sdp.flags', src=None)]),
-            dict(T=3, F=4, candidates=[dict(name='fl0', T=4, F=4, type='sdp.flags', src=['sdp_l0'], info_at='none')])]
+            dict(T=3, F=4, candidates=[dict(name='fl0', T=4, F=4, type='sdp.flags', src=['sdp_l0'], info_at='none')]),
+            # chunk infos without 'prefix' (older files): every stream's chunk name is found through ITS OWN view
+            dict(T=3, F=4, own_prefix='cs', candidates=[dict(name='fl0', T=5, F=4, type='sdp.flags', src=['sdp_l0'], prefix_at='cs')]),
+            dict(T=3, F=4, own_prefix='s', candidates=[dict(name='fl0', T=3, F=4, type='sdp.flags', src=['sdp_l0'], prefix_at='cp',
+                                                            inherit='par0', info_at='cs')],
+                 parents=[dict(name='par0', type=None, src=None)]),
+            dict(T=3, F=4, candidates=[dict(name='fl0', T=3, F=4, type='sdp.flags', src=['sdp_l0'], prefix_at='none')])]
     for c in prod:
         for how, store in (('ctor', 'given'), ('katdal.open', 'none')):
             check_open(ctx, c, dict(how=how, store=store, upgrade=None, n_ts=None, query={}, dataset=True))
